@@ -57,38 +57,30 @@ def c04_r1(ctx):
         return False
     good_edges = f.cmp_edges(lambda d: d["op"] == "Eq" and is_code_test(d), True) | \
         f.cmp_edges(lambda d: d["op"] == "Ne" and is_code_test(d), False)
-    # Where an element's output is *taken up* (wrapped into Ok, or into an accumulator such as
-    # `Some(output)` carried to the end of a fold): each such site needs the status test.  An
-    # `Ok(x)` of a CommandLineOutput elsewhere may only hand on what was taken up.
-    taken = []
-    for b in f.blocks:
-        if b["cleanup"] or b["i"] not in f.live:
-            continue
-        for i, st in enumerate(b["stmts"]):
-            if st["k"] == "assign" and st["rv"]["k"] == "aggregate" and st["rv"]["kind"]["k"] == "adt":
-                for op in st["rv"]["ops"]:
-                    if op["k"] in ("copy", "move") and f.origins_of_operand(op) == elem_ok and _reads_element_directly(f, op, lp):
-                        taken.append((b["i"], i, st["rv"]))
-    oks = [(bb, idx, rv) for (bb, idx, rv, pl) in f.constructs("std::result::Result", "Ok")
-           if rv["ops"] and not pl["proj"] and f.local_ty(pl["local"])["s"].startswith("std::result::Result<system::CommandLineOutput,")]
-    ctx.need(oks, "an Ok(output) construction")
-    for (bb, idx, rv) in taken:
-        ctx.inst("output taken up", f.where(bb, idx))
-        if not f.dominated_by_edges(bb, good_edges):
-            ctx.viol((f.id, "ok-without-status-check"), "a command's output is accepted as success without the test `code == Some(0)`", f.where(bb, idx))
-        else:
-            ctx.ok()
-    for (bb, idx, rv) in oks:
-        ctx.inst("Ok(output)", f.where(bb, idx))
-        org = f.origins_of_operand(rv["ops"][0])
-        if not org or not org <= elem_ok:
-            ctx.viol((f.id, "ok-foreign-output"), "Ok is built from something other than this iteration's output", f.where(bb, idx))
-        elif any(t[0] == bb and t[1] == idx for t in taken):
-            ctx.ok()
-        elif not taken:
-            raise AnalysisError("idiom not recognised: %s returns an output that no statement of the loop takes from the element (the status test cannot be placed)" % f.id)
-        else:
-            ctx.ok()
+    bad_edges = f.cmp_edges(lambda d: d["op"] == "Eq" and is_code_test(d), False) | \
+        f.cmp_edges(lambda d: d["op"] == "Ne" and is_code_test(d), True)
+    # Every iteration whose element is an output tests that output's status before it goes on
+    # to the next element, leaves the loop or returns: whatever carries the output to the
+    # result (`Ok(output)` itself, an Option accumulator and `ok_or`, a fold), no element gets
+    # past its own iteration untested.
+    okel = f.edges_of_value_variant(lp["elem"], "Ok")
+    if not okel:
+        raise AnalysisError("idiom not recognised: %s does not distinguish an output from a failure to start (no Ok / Err test of the element)" % f.id)
+    ctx.inst("status test of each element", f.where(lp["header"]))
+    r = f.reach([x for (_, x) in okel], avoid_edges=good_edges | bad_edges)
+    outside = [x for x in r if x not in lp["body"] and not f.blocks[x]["cleanup"]]
+    if lp["header"] in r or outside:
+        ctx.viol((f.id, "ok-without-status-check"), "a command's output is accepted as success without the test `code == Some(0)`",
+                 f.where(min(x for (_, x) in okel)))
+    else:
+        ctx.ok()
+    # what is returned as success is an element's output
+    ret = f._origins(0, (("variant", "Ok"), ("field", 0)), frozenset())
+    ctx.inst("Ok payload of the result", f.where(0))
+    if not ret or not ret <= elem_ok:
+        ctx.viol((f.id, "ok-foreign-output"), "Ok is built from something other than this iteration's output", f.where(0))
+    else:
+        ctx.ok()
     # an Err element returns Err at once
     el = lp["elem"]
     err_edges = f.edges_of_value_variant(el, "Err")
@@ -99,8 +91,6 @@ def c04_r1(ctx):
         if lp["header"] in r:
             ctx.viol((f.id, "err-element-continues"), "a command that failed to start does not abort the rule", f.where(lp["header"]))
     # the failing-status edge returns Err
-    bad_edges = f.cmp_edges(lambda d: d["op"] == "Eq" and is_code_test(d), False) | \
-        f.cmp_edges(lambda d: d["op"] == "Ne" and is_code_test(d), True)
     r = f.reach([x for (_, x) in bad_edges])
     if lp["header"] in r:
         ctx.viol((f.id, "bad-status-continues"), "a non-zero exit status does not abort the rule", f.where(lp["header"]))
@@ -113,33 +103,6 @@ def c04_r1(ctx):
                     org = f._rv_origins(payload, (), bb, idx, frozenset())
                     if not all(x[0][0] == "agg" and x[0][4].endswith("Result::Err") for x in org):
                         ctx.viol((f.id, "initial-not-err"), "with no command line the result is not an error", f.where(bb, idx))
-
-
-def _reads_element_directly(f, op, lp):
-    """The operand is the loop element's own payload (through plain moves), not a value that
-    went through another container first."""
-    seen = set()
-    cur = op
-    while cur["k"] in ("copy", "move"):
-        pl = cur["place"]
-        if pl["proj"]:
-            base = f.origins_of_place({"local": pl["local"], "proj": []})
-            return base == lp["elem"] or base == {e + (("variant", "Ok"), ("field", 0)) for e in lp["elem"]}
-        if pl["local"] in seen:
-            return False
-        seen.add(pl["local"])
-        defs = [d for d in f.defs.get(pl["local"], ()) if not d[3]["proj"]]
-        if len(defs) != 1:
-            return False
-        kind, bb, idx, place, payload = defs[0]
-        if kind != "assign" or payload["k"] != "use":
-            if kind == "call":
-                # unwrap-like pass-through of the element
-                return f.origins_of_operand(cur) == {e + (("variant", "Ok"), ("field", 0)) for e in lp["elem"]} and \
-                    all(f.origins_of_operand(a) == lp["elem"] for a in payload.args[:1])
-            return False
-        cur = payload["op"]
-    return False
 
 
 def _promoted_through(f, op):
@@ -171,17 +134,23 @@ def c01_r5(ctx):
     h, hcall, node = handler_fn(ctx)
     ctx.saw(h)
     preds = _needs_rebuild_calls(ctx, h)
-    ctx.need(preds, "a call of a bool predicate over Vec<FileResolution> in the handler")
+    inline = None
+    if not preds:
+        inline = _inline_rebuild_verdict(ctx, h)
+    ctx.need(preds or inline, "a call of a bool predicate over Vec<FileResolution> in the handler")
     false_edges = set()
     for p in preds:
         false_edges |= h.bool_edges_of_call(p, False)
+    if inline:
+        false_edges = inline["false"]
     sites = h.constructs("work::WorkOption", "Resolutions")
     ctx.need(sites, "a WorkOption::Resolutions construction")
     for (bb, idx, rv, pl) in sites:
         ctx.inst("Resolutions", h.where(bb, idx))
         if not h.dominated_by_edges(bb, false_edges):
             ctx.viol((h.id, "skip-without-verdict"), "the command is skipped on a path that did not establish that no target needs rebuilding", h.where(bb, idx))
-        elif h.vars_of_operand(rv["ops"][0]) != h.vars_of_operand(preds[0].args[0]):
+        elif (not inline and h.vars_of_operand(rv["ops"][0]) != h.vars_of_operand(preds[0].args[0])) or \
+                (inline and h.origins_of_operand(rv["ops"][0]) != inline["vector"]):
             ctx.viol((h.id, "verdict-on-other-vector"), "the resolutions reported are not the ones that were tested", h.where(bb, idx))
         else:
             ctx.ok()
@@ -198,6 +167,32 @@ def c01_r5(ctx):
             ctx.viol((h.id, "verdict-source"), "the resolutions tested are not the Ok payload of the resolution step", p.where)
 
 
+def _inline_rebuild_verdict(ctx, h):
+    """The needs-rebuild predicate written out in the handler itself (`resolutions.iter().any(..)`,
+    a loop setting a flag, a local closure): the one loop over the Ok payload of a call that
+    tests its element for NeedsRebuild.  The verdict `true` is the NeedsRebuild edge, `false`
+    the loop's exhaustion - provided a NeedsRebuild element never goes on to the next one."""
+    cands = []
+    for lp in h.loops():
+        it = lp["iter"]
+        if not it or not all(is_call(o) and o[1:3] == (("variant", "Ok"), ("field", 0)) for o in it):
+            continue
+        nr = h.edges_variant(lambda info, nm, oth, rest: info["origins"] == lp["elem"] and (nm == "NeedsRebuild" or (oth and rest == ["NeedsRebuild"])))
+        if nr:
+            cands.append((lp, nr))
+    if len(cands) != 1:
+        return None
+    lp, nr = cands[0]
+    ctx.inst("needs-rebuild test written out in the handler", h.where(lp["header"]))
+    if any(st[0] not in ("iter", "adapt") for o in lp["iter"] for st in o[3:]):
+        ctx.viol((h.id, "pred-collection"), "the predicate does not look at every resolution", h.where(lp["header"]))
+    if lp["header"] in h.reach([x for (_, x) in nr]):
+        ctx.viol((h.id, "pred-needs-rebuild-ignored"), "a NeedsRebuild element does not make the predicate true", h.where(lp["header"]))
+    # no other way out of the loop than `found` and `exhausted`
+    exits = {(a, b) for a in lp["body"] for b in h.succ[a] if b not in lp["body"] and not h.blocks[b]["cleanup"]}
+    return {"true": set(nr), "false": {lp["none"]}, "vector": {o[:3] for o in lp["iter"]}, "loop": lp}
+
+
 def _needs_rebuild_calls(ctx, h):
     out = []
     for c in h.calls:
@@ -205,7 +200,7 @@ def _needs_rebuild_calls(ctx, h):
         if not tg:
             continue
         f = ctx.P.fns[tg[0]]
-        if f.body.get("output", {}).get("s") == "bool" and any("Vec<blob::FileResolution>" in t["s"] for t in f.body.get("inputs", [])):
+        if f.body.get("output", {}).get("s") == "bool" and any("Vec<blob::FileResolution>" in t["s"] or "[blob::FileResolution]" in t["s"] for t in f.body.get("inputs", [])):
             out.append(c)
     return out
 
@@ -283,10 +278,13 @@ def c02_r3(ctx):
     true edge of the needs-rebuild predicate."""
     h, hcall, node = handler_fn(ctx)
     preds = _needs_rebuild_calls(ctx, h)
-    ctx.need(preds, "needs-rebuild predicate call")
+    inline = _inline_rebuild_verdict(ctx, h) if not preds else None
+    ctx.need(preds or inline, "needs-rebuild predicate call")
     true_edges = set()
     for p in preds:
         true_edges |= h.bool_edges_of_call(p, True)
+    if inline:
+        true_edges = inline["true"]
     R = Roles(ctx.P)
     rb = [c for c in h.calls if any(R.reaches_exec(t) for t in ctx.P.local_targets(c))] + R.exec_calls(h)
     ctx.need(rb, "a call that reaches execute_command in the handler")
@@ -1467,7 +1465,7 @@ def c01_r11(ctx):
     for f in P.fns.values():
         if f.body.get("in_test") or f.kind == "promoted" or f.body.get("derived"):
             continue
-        if not f.body["span"]["file"].endswith("blob.rs") or not effects(P, f.id):
+        if f.body["span"]["file"].endswith(("system/fake.rs", "system/real.rs")) or not effects(P, f.id):
             continue
         for c in f.calls_to("blob::FileStateVec::from_ticket_vec"):
             n += 1
